@@ -8,35 +8,48 @@ namespace Tuc
 
 def isCont (b : UInt8) : Bool := 0x80 ≤ b && b ≤ 0xBF
 
-/-- Split a byte string into the encodings of its scalar values; `none` iff it is not valid UTF-8
-    (overlong forms, surrogates and values above U+10FFFF rejected, as Rust does). -/
-def utf8Chars : Bytes → Option (List Bytes)
-  | [] => some []
+/-- length of the well-formed UTF-8 sequence at the head of the string (Unicode Table 3-7:
+    overlong forms, surrogates and values above U+10FFFF are not well formed), if there is one -/
+def charLen : Bytes → Option Nat
+  | [] => none
   | b0 :: t =>
-    if b0 < 0x80 then (utf8Chars t).map ([b0] :: ·)
+    if b0 < 0x80 then some 1
     else if 0xC2 ≤ b0 && b0 ≤ 0xDF then
       match t with
-      | b1 :: t1 => if isCont b1 then (utf8Chars t1).map ([b0, b1] :: ·) else none
+      | b1 :: _ => if isCont b1 then some 2 else none
       | _ => none
     else if 0xE0 ≤ b0 && b0 ≤ 0xEF then
       match t with
-      | b1 :: b2 :: t2 =>
+      | b1 :: b2 :: _ =>
         let ok1 :=
           if b0 = 0xE0 then 0xA0 ≤ b1 && b1 ≤ 0xBF
           else if b0 = 0xED then 0x80 ≤ b1 && b1 ≤ 0x9F
           else isCont b1
-        if ok1 && isCont b2 then (utf8Chars t2).map ([b0, b1, b2] :: ·) else none
+        if ok1 && isCont b2 then some 3 else none
       | _ => none
     else if 0xF0 ≤ b0 && b0 ≤ 0xF4 then
       match t with
-      | b1 :: b2 :: b3 :: t3 =>
+      | b1 :: b2 :: b3 :: _ =>
         let ok1 :=
           if b0 = 0xF0 then 0x90 ≤ b1 && b1 ≤ 0xBF
           else if b0 = 0xF4 then 0x80 ≤ b1 && b1 ≤ 0x8F
           else isCont b1
-        if ok1 && isCont b2 && isCont b3 then (utf8Chars t3).map ([b0, b1, b2, b3] :: ·) else none
+        if ok1 && isCont b2 && isCont b3 then some 4 else none
       | _ => none
     else none
+
+def utf8CharsFuel : Nat → Bytes → Option (List Bytes)
+  | _, [] => some []
+  | 0, _ :: _ => none
+  | fuel + 1, b :: t =>
+    match charLen (b :: t) with
+    | none => none
+    | some k => (utf8CharsFuel fuel ((b :: t).drop k)).map ((b :: t).take k :: ·)
+
+/-- Split a byte string into the encodings of its scalar values; `none` iff it is not valid UTF-8
+    (as `core::str::from_utf8` decides it).  The fuel (one unit per character) never runs out:
+    every character is at least one byte long. -/
+def utf8Chars (bs : Bytes) : Option (List Bytes) := utf8CharsFuel bs.length bs
 
 def validUtf8 (bs : Bytes) : Bool := (utf8Chars bs).isSome
 
